@@ -38,7 +38,7 @@ ASSUMPTIONS = [
     "in fix mode pass participation is not modelled: every sub-pass may be empty or a bare START for a rule; a fix-capable rule must take part in the first pass",
     "a bracket may be cut short only in the file where an injected fault fired",
 ]
-PROBES = ["wildcard_disable_checked", "token_only_rule_sets", "fix_stream_vs_scan_checked", "scan_brackets_checked", "fix_token_brackets_checked", "fix_line_brackets_checked", "disabled_probe_checked", "empty_file", "no_final_newline", "pragma_token_stripped", "fix_with_token_fix", "probe_highest_level", "three_levels", "builtin_recorded", "fault_cut_short"]
+PROBES = ["scan_lines_vs_file_at_op_start", "same_file_histories", "documents_through_symlinks", "wildcard_disable_checked", "token_only_rule_sets", "fix_stream_vs_scan_checked", "scan_brackets_checked", "fix_token_brackets_checked", "fix_line_brackets_checked", "disabled_probe_checked", "empty_file", "no_final_newline", "pragma_token_stripped", "fix_with_token_fix", "probe_highest_level", "three_levels", "builtin_recorded", "fault_cut_short"]
 
 EDGE_DOCS = [
     "edge_empty",
@@ -146,10 +146,36 @@ def generate(rng, tier, index):
         ops.append({"mode": mode, "flags": flags, "files": workload.files_to_spec(files), "docs": sorted(files), "labels": {prefix + n: lab for n, lab in labels.items()}, "paths": paths})
     if builtins_mode == "wildcard":
         recorded = []
+    symlinks = {}
+    if len(ops) >= 2 and rng.random() < 0.3:
+        # the same documents are processed again and again (scan, fix, scan ...): what
+        # the rules are handed must be the file as it is when each operation starts.
+        # Some documents are named through a symbolic link.
+        first = ops[0]
+        shared_files, shared_paths = dict(first["files"]), list(first["paths"])
+        if rng.random() < 0.5:
+            renamed = {}
+            for name in sorted(shared_files):
+                if rng.random() < 0.6:
+                    real = "real/" + name.replace("/", "_")
+                    renamed[real] = shared_files[name]
+                    symlinks[name] = real
+                else:
+                    renamed[name] = shared_files[name]
+            shared_files = renamed
+        modes = ["scan", "fix", "scan", "fix"]
+        for position, op in enumerate(ops):
+            op["files"] = shared_files if position == 0 else {}
+            op["paths"] = list(shared_paths)
+            op["docs"] = sorted(shared_paths)
+            op["labels"] = dict(first["labels"])
+            op["mode"] = modes[position % 4] if builtins_mode not in ("token-only",) else "scan"
+            op["same_files"] = True
     sc = {
         "cls": workload.draw_class(rng),
         "world": workload.draw_world(rng),
         "ops": ops,
+        "symlinks": symlinks,
         "wildcard": builtins_mode == "wildcard",
         "probes": probes,
         "disabled": disabled,
@@ -185,6 +211,8 @@ def _request(sc, builtin_ids, plan=None, record_sites=False):
         "record_cb": sc["record"],
         "record_reads": True,
     }
+    if sc.get("symlinks"):
+        request["symlinks"] = sc["symlinks"]
     if plan:
         request["plan"] = plan
     if record_sites:
@@ -284,6 +312,15 @@ def _check_segment(events, mode, plugin, fixable, stats, where):
         return "tok", None
     line_anchor = lines[0] if lines else events[-1]
     content = where["reads"].get(line_anchor[2])
+    if mode == "scan":
+        # a scan does not change the file: the lines must be those the file holds when
+        # the operation starts, whether or not (and whenever) the code reads it
+        at_start = where["snaps"].get(where["cur_op"], {}).get(where.get("cur_file"))
+        if at_start is not None:
+            if content is not None and content != at_start:
+                return "bad", "lines differ from the file: the scan read other bytes than the file held when the operation started"
+            content = at_start
+            stats["scan_lines_vs_file_at_op_start"] += 1
     if content is None:
         return "bad", "lines delivered although no file was read"
     try:
@@ -351,14 +388,16 @@ def evaluate(sc):
     faulted_op = plan[0]["op"] if plan and fired else None
 
     # walk the log: segments are delimited by reads of files under the run root
-    reads, parses = {}, {}
+    reads, parses, snaps = {}, {}, {}
     per_op = collections.defaultdict(list)  # op -> list of segments; segment = {"file":..., "events": {pid: [...]}}
     current_op, read_id, parse_id = -1, 0, 0
     segment = None
     current_target = None
     for entry in result["log"]:
         kind = entry[0]
-        if kind == "op":
+        if kind == "snap":
+            snaps[current_op] = {name: (unb64(data) if data is not None else None) for name, data in entry[1].items()}
+        elif kind == "op":
             current_op = entry[1]
             segment = None
             current_target = None
@@ -378,7 +417,7 @@ def evaluate(sc):
                 segment = {"file": current_target, "events": collections.defaultdict(list), "read": 0}
                 per_op[current_op].append(segment)
             segment["events"][entry[1]].append((entry[2], entry[3], read_id, parse_id))
-    where = {"reads": reads, "parses": parses, "impl": result.get("impl", {}), "collect": None}
+    where = {"reads": reads, "parses": parses, "impl": result.get("impl", {}), "collect": None, "snaps": snaps, "cur_op": 0}
 
     checked = 0
     for op_index, op in enumerate(sc["ops"]):
@@ -387,6 +426,7 @@ def evaluate(sc):
         errored_files = set(view.err0) | set(re.findall(r" encountered while scanning '([^']+)':", view.stderr))
         aborted = bool(view.exc) or any(marker in view.stderr for marker in ("Unexpected Error", "Configuration Error", "BadPluginError encountered", "BadTokenizationError encountered"))
         where["collect"] = [] if mode == "fix" else None
+        where["cur_op"] = op_index
         for plugin in sc["record"]:
             probe_cfg = sc["probes"].get(plugin)
             fixable = bool(probe_cfg.get("fix")) if probe_cfg is not None else None
@@ -518,6 +558,10 @@ def evaluate(sc):
                 stats["probe_highest_level"] += 1
             if view.fixed:
                 stats["fix_with_token_fix"] += 1
+    if any(op.get("same_files") for op in sc["ops"]):
+        stats["same_file_histories"] += 1
+    if sc.get("symlinks"):
+        stats["documents_through_symlinks"] += 1
     if sc.get("builtins_mode") == "token-only":
         stats["token_only_rule_sets"] += 1
     faults = {"cb": [1, 1 if fired else 0]} if plan else {}
